@@ -121,6 +121,24 @@ Section Model.
     +f l1 *f gsum dk (fun i => gsum rank (fun r => mget A i r))
     +f l2 *f gsum dk (fun i => gsum rank (fun r => fsq (mget A i r))).
 
+  (* ---------------- a whole sweep of non_negative_parafac_hals ----------------
+     every updated mode is either solved exactly (mode not in nn_modes: tl.solve of the same system, no ridge) or
+     improved by n passes of hals_nnls with that mode's sparsity coefficient (mode in nn_modes) *)
+  Inductive blockkind := BSolve | BHals (n : nat).
+  Definition nn_block (solve : mat -> mat -> mat) (X : tensor F) (w : list F) (rank : nat) (l1s : list F) (eps : F)
+             (facs : list mat) (kb : nat * blockkind) : list mat :=
+    match snd kb with
+    | BSolve => cp_block solve X w (f0 Op) rank facs (fst kb)
+    | BHals n => cp_hals_block X w rank (vget l1s (fst kb)) (f0 Op) eps n facs (fst kb)
+    end.
+  Definition nn_sweep solve X w rank l1s eps (blocks : list (nat * blockkind)) (facs : list mat) : list mat :=
+    fold_left (nn_block solve X w rank l1s eps) blocks facs.
+  Definition fac_sum (A : mat) (rows rank : nat) : F := gsum rows (fun i => gsum rank (fun r => mget A i r)).
+  (* what the sweep descends on: half the squared error + sum over the modes of sparsity_j * sum(A_j) *)
+  Definition nn_obj (X : tensor F) (w : list F) (facs : list mat) (l1s : list F) (rank : nat) : F :=
+    cp_sqerr X w facs rank /f two
+    +f gsum (length (shape X)) (fun j => vget l1s j *f fac_sum (nth j facs []) (nth j (shape X) 0) rank).
+
   (* ---------------- parafac with normalize_factors: the state carries the weights ----------------
      cp_tensor.py:cp_normalize: the weights are absorbed into factor 0, then mode after mode the columns are divided by
      their norms (by 1 where the norm is 0) and the weights multiplied by the norms.  The norms (sqrt) are an oracle:
